@@ -24,6 +24,10 @@ CLAIMED = {
    text="The full product of operation type x anchorFrom x anchorUntil x anchoring time x time delta x decoy parameter settings is enumerated by TLC, which derives the expected state from the SidetreeCore state machine and the expected time-validator arguments; each case is executed on real code. Varying unrelated parameters independently is what exposes a window computed from the wrong parameter."),
  "C16": dict(engine="BatchWriter", design="4/C16", technique="TLA+ property spec WriterProp + implementation-shaped BatchWriter model (TLC: invariants, refinement, liveness); TLC-generated schedules single-step the real batch.Writer through gates; traces of driven and truly concurrent real runs validated by TLC against WriterProp",
    text="WriterProp.tla states C16 itself (FIFO prefix cuts, batch bounds, short cut only when forced or at a version boundary, partition into included/expired/deferred, nack to the head, conservation, exactly-once at rest). BatchWriter.tla models the code's steps (Len/Peek/Remove/CAS writes/anchor write/re-add/ack/nack with client adds between any two of them); TLC checks its invariants, that every step refines WriterProp, and liveness under fairness. Every complete behaviour of the bounded model becomes a schedule that drives the REAL writer + cutter + MemQueue + operation handler step by step (client adds injected inside critical windows, k-th CAS write or the anchor write failing); in addition the real writer is Start()ed with real tickers and 2-5 concurrently adding goroutines under random faults. All recorded NDJSON traces are validated by TLC against WriterProp with every invariant at every step."),
+ "C15": dict(engine="Pipeline", design="4/C15", technique="TLA+ Pipeline model (TLC: bounded exhaustive check of OnePerSuffixPerTxn, Stamped, AllOrNothing, FailedTxnIsolated, NoTrace) + TLC-simulated behaviours executed on the fully wired real pipeline, traces validated by TLC (PipelineTrace)",
+   text="Pipeline.tla models intake, queue, writer round, ledger, observer and store with faults as actions (queue add fails, batch write fails, garbage / duplicate-carrying ledger entries, unreadable or unstorable transactions). TLC checks the C15 invariants exhaustively on a bounded instance (268k states) and generates behaviours; the harness runs each on the real DocumentHandler, batch.Writer, OperationHandler, Observer (consecutive transactions delivered as one notification), TxnProcessor and stores, logging after every action the reply, queue, unpublished store, each stored operation with all its stamps and the number of Put calls; TLC accepts the trace only if every logged value equals the specification's."),
+ "C20": dict(engine="Pipeline", design="4/C20", technique="TLA+ Pipeline model with SidetreeCore as reference state machine; fault-free TLC-simulated behaviours executed on the real pipeline with trace validation of every ResolveDocument view; create-view agreement evaluated on real outputs",
+   text="Fault-free behaviours (2 DIDs, up to 8 submissions, every flush/observe placement, protocol upgrade at any point with version-specific operations, with/without unpublished store) are executed on the real pipeline; after each step the real ResolveDocument view of every DID must equal ResolveRef over the stored + unpublished operations. The create response, long-form resolution before anchoring and short-form resolution after anchoring are compared modulo the DID string."),
 }
 
 def check(pid, m):
